@@ -98,6 +98,22 @@ Fixpoint tr_live (M : transducer) (q : nat) (xs : list T) : bool :=
   | x :: r => negb (t_fin M q) && tr_live M (fst (t_react M q x)) r
   end.
 
+(* which received elements the user's function (predicate / map function) is applied to: [uses q] = the stage in
+   counter q evaluates fn on the element it has just received (before anything else happens to it). The user
+   function is never applied to anything else: in particular not when the receive reports the input closed. *)
+Definition uses_of (k : kind) (q : nat) : bool :=
+  match k with
+  | KTaskFn _ | KTaskWhile _ | KSkipFn _ | KMap _ => true
+  | KSkipWhile _ => Nat.eqb q 0          (* only while still skipping; the pass-through loop does not call fn *)
+  | KTaskN _ | KSkipN _ | KPipe | KStreamId => false
+  end.
+Fixpoint tr_calls (M : transducer) (uses : nat -> bool) (q : nat) (xs : list T) : list T :=
+  match xs with
+  | [] => []
+  | x :: r => if t_fin M q then []
+              else (if uses q then [x] else []) ++ tr_calls M uses (fst (t_react M q x)) r
+  end.
+
 (* the list functions the property names *)
 Fixpoint find_first (p : T -> bool) (xs : list T) : list T :=
   match xs with [] => [] | x :: r => if p x then [x] else find_first p r end.
@@ -265,6 +281,11 @@ Definition reduce_step (fn : T -> T -> T) (s : rpc) (l : label) : option rpc :=
   | RLoop acc, recv_closed 0 => Some (RRet acc)
   | _, _ => None
   end.
+(* the argument pairs the reducer is called with: (first, second), (fn first second, third), ... *)
+Fixpoint reduce_calls_from (fn : T -> T -> T) (acc : T) (xs : list T) : list (T * T) :=
+  match xs with [] => [] | x :: r => (acc, x) :: reduce_calls_from fn (fn acc x) r end.
+Definition reduce_calls (fn : T -> T -> T) (xs : list T) : list (T * T) :=
+  match xs with [] => [] | x :: r => reduce_calls_from fn x r end.
 Definition reduce_spec (fn : T -> T -> T) (xs : list T) : T :=
   match xs with [] => zero | x :: r => fold_left fn r x end.
 
